@@ -49,6 +49,10 @@ for f in os.listdir(src):
 meta = json.load(open(os.path.join(dst, 'meta.json')))
 meta['property'] = prop
 meta['confirmed_in_scratch_worktree'] = confirmed
+if os.environ.get('CONFIRM_ONLY'):
+    json.dump(meta, open(os.path.join(dst, 'meta.json'), 'w'), indent=1)
+    print('confirmed only (checks not run)')
+    sys.exit(0)
 # our checks against it
 r = sh(['git', '-C', '/repo', 'apply', os.path.join(dst, 'patch.diff')])
 assert r.returncode == 0, r.stderr
